@@ -86,6 +86,8 @@ def cases(tier, seed):
     yield {"fam": "options", "i": 1}
     for i in range(24 if tier == "quick" else 400):
         yield {"fam": "realpool", "i": i}
+    for i in range(3 if tier == "quick" else 24):
+        yield {"fam": "realpool_fork", "i": i}
 
 
 # ------------------------------------------------------------------------------------- snapshots
@@ -398,6 +400,46 @@ def run(case, ctx):
                 evaluate_step(ctx, tr, 3, opts, history, ctx._pending)
                 ctx.count("C15.option_combinations_judged")
             tr.check(ctx, -1, history)
+        return
+    if fam == "realpool_fork":
+        # the real pool in a parent that has already evaluated, then in a forked child (as worker processes do)
+        import time
+
+        c = [0, 2, 7][i % 3]
+        cfg = CONFIGS[c]
+        pred, refa = make_input(ctx.seed, (i * 5 + 1) % N_INPUTS)[cfg["input"]]
+        with pan.real_pool():
+            parent = meta.run_all_groups(cfg, pred.copy(), refa.copy())
+            outp = os.path.join(os.environ.get("VERIF_TMP", "/tmp"), "c15fork_%d_%d.json" % (os.getpid(), i))
+            pid = os.fork()
+            if pid == 0:
+                try:
+                    res = meta.run_all_groups(cfg, pred.copy(), refa.copy())
+                    with open(outp, "w") as fh:
+                        json.dump(harness.jsonable(res), fh)
+                finally:
+                    os._exit(0)
+            deadline = time.monotonic() + 180
+            done = False
+            while time.monotonic() < deadline:
+                w, _ = os.waitpid(pid, os.WNOHANG)
+                if w == pid:
+                    done = True
+                    break
+                time.sleep(0.05)
+            if not done:
+                os.kill(pid, 9)
+                os.waitpid(pid, 0)
+        ctx.count("evaluations", 2)
+        if not done:
+            ctx.viol("evaluation_in_forked_child_never_returned", {"cfg": cfg, "note": "parent had evaluated with the process pool before forking; child did not finish within 180 s"}, features={"what": "fork_after_pool"})
+            return
+        ctx.count("C15.real_pool_judged")
+        if os.path.exists(outp):
+            child = json.load(open(outp))
+            d = results_equal(norm(parent), child, cfg.get("metrics", pan.DEFAULT_METRICS)) if "ERR" not in parent and "ERR" not in child else (None if norm(parent) == child else "ERR")
+            if d is not None:
+                ctx.viol("serial_and_pool_differ", {"key": d, "parent": parent, "forked_child": child, "cfg": cfg}, features={"what": "fork_after_pool", "key": str(d).split(":")[-1]})
         return
     if fam == "realpool":
         c = i % len(CONFIGS)
